@@ -218,6 +218,7 @@ func (f *fragmentList) insert(in *layers.IPv4, t time.Time) (*layers.IPv4, error
 	if fragOffset >= f.Highest {
 		f.List.PushBack(in)
 	} else {
+		inserted := false
 		for e := f.List.Front(); e != nil; e = e.Next() {
 			frag, _ := e.Value.(*layers.IPv4)
 			if in.FragOffset == frag.FragOffset {
@@ -241,8 +242,14 @@ func (f *fragmentList) insert(in *layers.IPv4, t time.Time) (*layers.IPv4, error
 				debug.Printf("defrag: inserting frag %d before existing frag %d\n",
 					fragOffset, frag.FragOffset*8)
 				f.List.InsertBefore(in, e)
+				inserted = true
 				break
 			}
+		}
+		if !inserted {
+			// it starts inside the data seen so far but after the start of every
+			// listed fragment: it still belongs at the end of the list
+			f.List.PushBack(in)
 		}
 	}
 
